@@ -260,11 +260,17 @@ def render_module(rng, m):
             text = "backend %s epilogue %s;" % (name, r_str(rng, sx.Q(pad(epi[1]))))
         else:
             inner = []
-            if pro != "none":
+            split_ = False
+            if pro != "none" and "\n" in sx.qtext(pro[1]) and rng.random() < 0.7:
+                split_ = True
+                # a repeated section of one braced block continues the text on a new line
+                for part in sx.qtext(pro[1]).split("\n"):
+                    inner.append("prologue %s;" % r_str(rng, sx.Q(pad(sx.Q(part)))))
+            elif pro != "none":
                 inner.append("prologue %s;" % r_str(rng, sx.Q(pad(pro[1]))))
             if epi != "none":
                 inner.append("epilogue %s;" % r_str(rng, sx.Q(pad(epi[1]))))
-            if rng.random() < 0.5:
+            if rng.random() < 0.5 and not split_:
                 inner.reverse()
             text = "backend %s { %s }" % (name, " ".join(inner))
         stmts.append(("backend", text))
